@@ -230,6 +230,11 @@ func RunCoordinator(chk *Check, tier string, seed int64) int {
 				kind, fn := classifyCrash(r.stderr)
 				v := Violation{Features: map[string]string{"kind": "crash", "crash": kind, "func": fn},
 					Detail: truncate(r.stderr, 8000)}
+				if chk.CrashFeatures != nil {
+					for k, val := range chk.CrashFeatures(caseDesc) {
+						v.Features[k] = val
+					}
+				}
 				v.Witness, _ = json.Marshal(map[string]any{"case": caseDesc, "shard": i, "exit": code})
 				m.AddViolation(v)
 			}
